@@ -12,6 +12,10 @@ pub mod c04;
 pub mod c05;
 pub mod c06;
 pub mod c07;
+pub mod c09;
+pub mod c11;
+pub mod c12;
+pub mod c18;
 
 use common::*;
 use serde_json::Value;
@@ -38,6 +42,10 @@ pub fn modules() -> Vec<Module> {
         module!("C05", c05),
         module!("C06", c06),
         module!("C07", c07),
+        module!("C09", c09),
+        module!("C11", c11),
+        module!("C12", c12),
+        module!("C18", c18),
     ]
 }
 
